@@ -8,8 +8,8 @@
    attrs classes = VRec with the source's field names.
    Trusted in this tie: the translator's reading of Python (struct.pack formats as Prim.pack_list, the _util writers as
    the Prim writers, dict iteration in insertion order, `+=` / list-append-join / `+` as concatenation in evaluation
-   order, isinstance/assert guards and None-defaults dropped).  KafkaCodec._encode_message_set / _encode_message are NOT
-   translated: the term for encode_produce_request calls the model's Model.MsgSet.encode_message_set. *)
+   order, isinstance/assert guards and None-defaults dropped; zlib.crc32(..) & 0xFFFFFFFF as Model.Crc.crc32;
+   int(time.time() * 1000) as the next reading of the scripted clock). *)
 From Coq Require Import String.
 From AV Require Import Base.Util Model.Prim Model.MsgSet Model.Requests Model.EncDSL Model.EncAst Proofs.EncDSLSound.
 Open Scope string_scope.
@@ -94,16 +94,31 @@ Theorem C04gen_fetch : forall cid corr ps max_wait min_bytes v,
 Proof. exact fetch_sound. Qed.
 Print Assumptions C04gen_fetch.
 
-(* PARTIAL: the encoder language has no clock (a format-1 message without timestamp would be stamped 0), so the
-   statement is for payloads whose messages carry their timestamps ([stamped]: no message makes _encode_message read
-   the clock - true of everything create_message builds); for those the clock of the model is irrelevant.  Missing for
-   the full statement: clock readings threaded through the interpreter. *)
-Theorem C04gen_produce_partial : forall clock cid corr ps acks timeout v,
-  stamped ps = true ->
-  run ast_encode_produce_request [vbytes cid; VInt corr; VList (map produce_val ps); VInt acks; VInt timeout; VInt v]
-  = encode_produce_request clock cid corr ps acks timeout v.
+(* ---- the clocked part.  [runc p env clock k] = bytes and the number of clock readings made, k of them before.
+   The j-th reading of int(time.time() * 1000) is [clock j]; a reading is consumed exactly where the source calls
+   time.time(): in _encode_message for a format-1 message whose timestamp is None. ---- *)
+Theorem C04gen_message : forall clock k m,
+  runc ast_encode_message [msg_val m] clock k
+  = do b <- encode_message (clock k) m; Ok (b, if uses_clock m then S k else k).
+Proof. exact message_sound. Qed.
+Print Assumptions C04gen_message.
+
+(* in the term for _encode_message_set the call KafkaCodec._encode_message(m) denotes Model.MsgSet.encode_message
+   (C04gen_message ties the callee); offset None / an integer, the `offset += incr` induction variable, and the
+   UnboundLocalError for a magic outside {0, 1} are all in the translated term *)
+Theorem C04gen_message_set : forall clock k msgs offset magic,
+  runc ast_encode_message_set [VList (map msg_val msgs); optint_val offset; VInt magic] clock k
+  = do b <- encode_message_set clock k msgs offset magic; Ok (b, (k + clock_uses msgs)%nat).
+Proof. exact message_set_sound. Qed.
+Print Assumptions C04gen_message_set.
+
+(* Produce, in full: any payloads, any messages (with or without timestamps), any clock; in the term the call
+   KafkaCodec._encode_message_set(msgs, magic=..) denotes Model.MsgSet.encode_message_set (C04gen_message_set) *)
+Theorem C04gen_produce : forall clock cid corr ps acks timeout v,
+  runc ast_encode_produce_request [vbytes cid; VInt corr; VList (map produce_val ps); VInt acks; VInt timeout; VInt v] clock O
+  = do w <- encode_produce_request clock cid corr ps acks timeout v; Ok (w, produce_clock_uses ps).
 Proof. exact produce_sound. Qed.
-Print Assumptions C04gen_produce_partial.
+Print Assumptions C04gen_produce.
 
 (* non-vacuity: the terms are run, they do not merely type-check *)
 Example gen_heartbeat_bytes :
@@ -115,13 +130,17 @@ Example gen_fetch_error_kind :
   run ast_encode_fetch_request [vbytes []; VInt 0; VList [fetch_val (mkFetch (Some [233]) 0 0 0)]; VInt 0; VInt 0; VInt 0]
   = Err UnicodeErr.
 Proof. vm_compute. reflexivity. Qed.
-Example gen_produce_stamped :
-  stamped [mkProduce (Some [116]) 0 [mkMessage 1 0 None (Some [1]) (Some 5); mkMessage 0 0 (Some []) None None]] = true /\
-  match run ast_encode_produce_request
-            [vbytes [99]; VInt 1; VList [produce_val (mkProduce (Some [116]) 0 [mkMessage 1 0 None (Some [1]) (Some 5);
-                                                                               mkMessage 0 0 (Some []) None None])];
-             VInt 1; VInt 1000; VInt 2] with
-  | Ok w => length w = 97%nat
+Example gen_produce_clock :
+  match runc ast_encode_produce_request
+             [vbytes [99]; VInt 1; VList [produce_val (mkProduce (Some [116]) 0 [mkMessage 1 0 None (Some [1]) None;
+                                                                                mkMessage 0 0 (Some []) None None;
+                                                                                mkMessage 1 0 None None None])];
+              VInt 1; VInt 1000; VInt 2] (fun j => 500 + Z.of_nat j)%Z O with
+  | Ok (w, k) => length w = 131%nat /\ k = 2%nat
   | Err _ => False
   end.
+Proof. vm_compute. split; reflexivity. Qed.
+Example gen_message_set_unbound :
+  runc ast_encode_message_set [VList [msg_val (mkMessage 0 0 None None None)]; VNone; VInt 2] (fun _ => 0%Z) O = Err NameErr /\
+  runc ast_encode_message [msg_val (mkMessage 2 0 None None None)] (fun _ => 0%Z) O = Err Protocol.
 Proof. split; vm_compute; reflexivity. Qed.
